@@ -270,6 +270,19 @@ def run(w: World, rep: Report):
         rep.check('C17.R7', f'functions.{fi.name}|operands-used-as-popped', not bad, line=fi.node.lineno, file=REL,
                   why='' if not bad else bad + ': an altered operand (extra bytes, changed high bits) passes the check while '
                   'the value it stands for cannot be decrypted to a signature')
+    # R8: the adapter helpers of tools.py take their results from the stack.  The cache entries b'RT', b's', b'sa', ..
+    # are written only under optional flags (7, 9, 8 ..): a helper that reads them fails when the embedder turned the
+    # flag off
+    rep.rule('C17.R8', 'adapter helpers in tools.py do not read the optional (flag-controlled) cache entries of the adapter '
+             'instructions', floor=3)
+    tm = w.repo.module('tools')
+    for fn in [f for f in tm.tree.body if isinstance(f, ast.FunctionDef) and 'adapter' in f.name]:
+        rd = [x for x in ast.walk(fn) if isinstance(x, ast.Subscript) and isinstance(x.slice, ast.Constant) and
+              isinstance(x.slice.value, bytes) and isinstance(x.ctx, ast.Load)]
+        rep.check('C17.R8', f'tools.{fn.name}|results-from-the-stack', not rd, line=rd[0].lineno if rd else fn.lineno,
+                  file='tapescript/tools.py', trivial=not rd,
+                  why='' if not rd else f'`{ast.unparse(rd[0])[:30]}` is written by the instruction only when its flag is set: with '
+                  f'the flag off the helper raises KeyError instead of returning the documented result')
     rep.explanation = (
         'Narrow: decides only a necessary condition of "the adapter passes the adapter check" - that both makers '
         'feed the Fiat-Shamir hash the same term shape as the checker (aggregate of nonce point and tweak point, '
